@@ -1,4 +1,4 @@
 From Coq Require Import ExtrOcamlBasic NArith.
 From LLRP Require Import Client.Stream Client.Hostile Client.DeviceHostile.
 Extraction Language OCaml.
-Extraction "model.ml" session frame_bytes dev_run.
+Extraction "model.ml" session frame_bytes dev_run probe_after.
